@@ -105,8 +105,8 @@ def run(replay=None):
     ck.notes["link_modes"] = summary
     ck.coverage["traces_validated_against_impl"] = evaluated
     ck.coverage["distinct_nontrivial"] = sum(v.get("exact", 0) for v in summary.values())
-    ck.coverage["rule"] = ("per link mode (quick: default, -ldflags=-s, -linkmode=external (non-zero slide); thorough: + pie, pie+stripped): every function symbol of the harness binary resolved by name and compared with "
+    ck.coverage["rule"] = ("per link mode (quick: default, -ldflags=-s, -linkmode=external (non-zero slide), external+stripped; thorough: + pie, pie+stripped): every function symbol of the harness binary resolved by name and compared with "
                            "runtime.FuncForPC (entry and name), 6 functions known by value, 20 package variables (exported and unexported) compared with &v, ~1800 absent / near-miss names "
-                           "for both lookups; a sample of 740 (name, file address, returned address) triples is evaluated in Coq against the model; non-trivial = resolved exactly")
+                           "for both lookups, 300 histories of interleaved / repeated present and absent names (answers must not depend on earlier lookups); a sample of 740 (name, file address, returned address) triples is evaluated in Coq against the model; non-trivial = resolved exactly")
     ck.coverage["samples"] = [{"mode": m, **{k: v for k, v in s.items() if k in ("readable", "total", "exact", "errors", "var_ok_exact", "var_err", "absent_tried")}} for m, s in summary.items()]
     return ck.finish()
